@@ -629,6 +629,21 @@ def handlerCtx (c : Ctx) (ps : Params) : Ctx :=
 /-- what `pathvar.Vars(r)` shows inside the route handler (`nil` and the empty map print alike). -/
 def delivered (c : Ctx) (ps : Params) : List (String × String) := ((handlerCtx c ps).vars).getD []
 
+/-! ### round 5c: the status of a not-found answer through `engine.notFoundHandler` -/
+
+/-- `response.HeaderOnceResponseWriter`: `wrote` = a status was written through it already; `WriteHeader(code)` is
+passed to the underlying writer only the first time.  The state after the call and the status that reached the
+underlying writer (if any). -/
+def headerOnceWrite (wrote : Bool) (code : Nat) : Bool × Option Nat := if wrote then (true, none) else (true, some code)
+
+/-- `engine.notFoundHandler(next)`: `cw := NewHeaderOnceResponseWriter(w); h.ServeHTTP(cw, r); cw.WriteHeader(404)`.
+`own` = the status the user's handler wrote through `cw` (`none`: it wrote nothing; net/http then defaults to 200),
+`returns` = the handler came back (did not panic / `runtime.Goexit`).  The status of the response. -/
+def engineNotFoundStatus (own : Option Nat) (returns : Bool) : Nat :=
+  match own with
+  | some c => c                                    -- the first WriteHeader wins, the forced 404 is dropped
+  | none => if returns then ((headerOnceWrite false 404).2).getD 200 else 200
+
 /-! ### round 5c: registration with the MUTATION visible (what the Go structures hold after a call, also a failing one) -/
 
 /-- get-or-create on one children map, in place: `f` returns the child after the call and the error (if any); a child
